@@ -124,10 +124,16 @@ def random_general(seed, n, base_id, k=3, sigma=(A, B, C, 120), nsets=(1, 2, 2, 
                 if ri < len(joins):
                     re = joins[ri]
                 if p_var and g.rnd.random() < p_var:
-                    vn = "v%d" % len(env)
-                    scope = g.rnd.choice([-1, si])
-                    env.append((vn, re, scope))
-                    re = g.rnd.choice([var(vn), cat(var(vn), g.atom()), plus(var(vn))])
+                    usable = [e for e in env if e[2] in (-1, si)]
+                    if usable and g.rnd.random() < 0.5:
+                        # a second use of a variable, in different surroundings
+                        vn = g.rnd.choice(usable)[0]
+                    else:
+                        vn = "v%d" % len(env)
+                        scope = g.rnd.choice([-1, si])
+                        env.append((vn, re, scope))
+                    re = g.rnd.choice([var(vn), cat(var(vn), g.atom()), plus(var(vn)), cat(g.atom(), var(vn)),
+                                       cat(var(vn), cat(g.atom(), var(vn)))])
                 if g.rnd.random() < p_eoi and ri >= len(joins):
                     re = g.with_eoi(re) if g.rnd.random() < 0.7 else eoi()
                 ctx = g.ctx_regex(g.rnd.choice([0, 1, 1, 2])) if g.rnd.random() < p_ctx else None
